@@ -179,7 +179,7 @@ def c05(pid, tier, seed):
 
 def c06(pid, tier, seed):
     chk = C.Check(pid, tier, seed)
-    chk.rule = ("histories over {export(T), export_all(T), export_all_to(T, spelling)} for the 9-type universe of harness/fixed (two shared files, "
+    chk.rule = ("histories over {export(T), export_all(T), export_all_to(T, spelling)} for the 11-type universe of harness/fixed (two shared files, one of them holding a generic type and a sibling named like it plus a digit, "
                 "a dependency chain, a cycle, a `../` escape): every ordered pair of (type, entry point) for one directory configuration per "
                 "shard + seeded random histories of length 1..4 (thorough: 1..5) x 6 TS_RS_EXPORT_DIR settings x 6 directory spellings x "
                 "{empty, stale garbage, previous run}; one registry lifetime per history (reset hook). Oracle: final tree == canonical tree of the "
